@@ -211,6 +211,20 @@ def run_case(case, seed):
         bad = cmp_freq(fi2, "iter_mesh(no eigenvectors)", slice(0, nmesh))
         if bad:
             return bad
+        # a mesh given as a length (phonopy derives the mesh numbers and forces Gamma-centring): stored and iterated meshes
+        # sample the same q-points and report the same frequencies, whatever is_gamma_center says
+        for gc in (False, True):
+            for length in (6.0, 9.5):
+                ph.run_mesh(length, is_mesh_symmetry=False, is_gamma_center=gc)
+                ms_ = ph.get_mesh_dict()
+                ph.init_mesh(length, is_mesh_symmetry=False, is_gamma_center=gc, use_iter_mesh=True, with_eigenvectors=False)
+                itq = np.array(ph.mesh.qpoints)
+                itf = np.array([x[0] for x in ph.mesh])
+                trans += 2
+                if itq.shape != np.asarray(ms_["qpoints"]).shape or np.abs(itq - ms_["qpoints"]).max() > 1e-12:
+                    return fail("length-mesh/qpoints", "mesh length %g, is_gamma_center=%s: the iterated mesh samples other q-points than the stored mesh" % (length, gc))
+                if np.abs(lam(itf) - lam(np.array(ms_["frequencies"]))).max() / fscale ** 2 > 1e-9:
+                    return fail("length-mesh/frequencies", "mesh length %g, is_gamma_center=%s: iterated and stored mesh frequencies differ" % (length, gc))
     except Exception as e:
         return fail("iter-mesh-raised", "%s: %s" % (type(e).__name__, str(e)[:150]))
     # the same q-points handed over in every memory layout
